@@ -1904,6 +1904,19 @@ BD_Shape<T>::shortest_path_closure_assign() const {
   // is going to be modified by the Floyd-Warshall algorithm.
   BD_Shape& x = const_cast<BD_Shape<T>&>(*this);
 
+  // If the closure is abandoned by an exception (allocation failure,
+  // timeout), the main diagonal must get back its plus infinities:
+  // the partially closed matrix still encodes the same BDS.
+  struct Diagonal_Guard {
+    DB_Matrix<N>& m;
+    explicit Diagonal_Guard(DB_Matrix<N>& mat) : m(mat) {}
+    ~Diagonal_Guard() {
+      for (dimension_type h = m.num_rows(); h-- > 0; ) {
+        assign_r(m[h][h], PLUS_INFINITY, ROUND_NOT_NEEDED);
+      }
+    }
+  } diagonal_guard(x.dbm);
+
   // Fill the main diagonal with zeros.
   for (dimension_type h = num_dimensions + 1; h-- > 0; ) {
     PPL_ASSERT(is_plus_infinity(x.dbm[h][h]));
@@ -1964,6 +1977,19 @@ BD_Shape<T>::incremental_shortest_path_closure_assign(Variable var) const {
   // Even though the BDS will not change, its internal representation
   // is going to be modified by the incremental Floyd-Warshall algorithm.
   BD_Shape& x = const_cast<BD_Shape&>(*this);
+
+  // If the closure is abandoned by an exception (allocation failure,
+  // timeout), the main diagonal must get back its plus infinities:
+  // the partially closed matrix still encodes the same BDS.
+  struct Diagonal_Guard {
+    DB_Matrix<N>& m;
+    explicit Diagonal_Guard(DB_Matrix<N>& mat) : m(mat) {}
+    ~Diagonal_Guard() {
+      for (dimension_type h = m.num_rows(); h-- > 0; ) {
+        assign_r(m[h][h], PLUS_INFINITY, ROUND_NOT_NEEDED);
+      }
+    }
+  } diagonal_guard(x.dbm);
 
   // Fill the main diagonal with zeros.
   for (dimension_type h = num_dimensions + 1; h-- > 0; ) {
